@@ -58,6 +58,9 @@ func main() {
 	case "warm":
 		os.Exit(checks.Warm())
 	case "regen":
+		if os.Args[2] == "--list" {
+			os.Exit(checks.PrintArtifacts())
+		}
 		if os.Args[2] == "--write" {
 			os.Exit(checks.RegenWrite())
 		}
